@@ -36,6 +36,10 @@ func c04Pool() [][]byte {
 		appMsg(5, "58=\x0210=", "1010=10="),
 		// a field longer than bufio's 4096-byte buffer whose text carries "10=" exactly 4096 and 8192 bytes after the field start
 		appMsg(6, "58="+strings.Repeat("x", 4093)+"10=abc"+strings.Repeat("y", 4090)+"10=", "11=after"),
+		// look-alikes of the start of a message: the bytes "8=FIX" as the tail of a longer tag whose value
+		// continues like a BeginString, and as text inside a value
+		appMsg(7, "58=FIX.4.2 is not supported", "448=FIXBROKER"),
+		rawFrom("PEER", "SELF", "3", 8, "58=unexpected 8=FIX.4.4 in the middle", "45=7"),
 	}
 }
 
@@ -110,6 +114,97 @@ func feedChunks(cn *sconn, chunks [][]byte, stallMs int) {
 		cn.feed(ch)
 		vsched.Settle()
 	}
+}
+
+// c04InboundStop: the handler is stopped while a callback is running and further messages are queued
+// behind it - from inside that callback, or by another task (handler.Stop / Initiator.Close /
+// Acceptor.Close) that the callback releases.  Whatever is still delivered must come one at a time, in
+// the order sent, each message at most once (a stop may cut the delivery short, nothing else).
+func c04InboundStop(c c04Case, obs *c04Obs) {
+	*obs = c04Obs{seen: map[int][][]byte{}}
+	how := "callback"
+	if len(c.Cuts) > 0 {
+		how = []string{"callback", "other-task-stop", "other-task-close"}[c.Cuts[0]%3]
+	}
+	busy := 0
+	started := make(chan struct{}, 1)
+	var stopper func()
+	record := func(m []byte) bool {
+		busy++
+		if busy > 1 {
+			obs.overlap = true
+		}
+		obs.seen[0] = append(obs.seen[0], append([]byte{}, m...))
+		if len(obs.seen[0]) == 1 {
+			if how == "callback" {
+				stopper()
+			} else {
+				started <- struct{}{}
+			}
+		}
+		vsched.Preempt() // the callback takes its time
+		vsched.Preempt()
+		busy--
+		return true
+	}
+	s1, m1 := streamOf(c.Seq)
+	cn := newConn(0)
+	var closer func()
+	if c.Role == "ini" {
+		h := simplefixgo.NewInitiatorHandler(context.Background(), "35", c.Buf)
+		h.HandleIncoming(simplefixgo.AllMsgTypes, record)
+		cl := simplefixgo.NewInitiator(cn, h, c.Buf, 5*time.Second)
+		stopper, closer = h.Stop, cl.Close
+		go func() { obs.serveErr = cl.Serve(); obs.served = true }()
+	} else {
+		l := &slistener{}
+		var hh simplefixgo.AcceptorHandler
+		a := simplefixgo.NewAcceptor(l, simplefixgo.NewAcceptorHandlerFactory("35", c.Buf), 5*time.Second, func(h simplefixgo.AcceptorHandler) {
+			hh = h
+			h.HandleIncoming(simplefixgo.AllMsgTypes, record)
+		})
+		stopper = func() { hh.(*simplefixgo.DefaultHandler).Stop() }
+		closer = a.Close
+		go func() { obs.serveErr = a.ListenAndServe(); obs.served = true }()
+		l.q = append(l.q, cn)
+	}
+	if how != "callback" {
+		go func() {
+			<-started
+			if how == "other-task-stop" {
+				stopper()
+			} else {
+				closer()
+			}
+		}()
+	}
+	vsched.Settle()
+	cn.feed(chunksOf(s1, m1, []int{-2})...)
+	time.Sleep(10 * time.Second)
+	vsched.Settle()
+	cn.eof = true
+	time.Sleep(10 * time.Second)
+	vsched.Settle()
+	closer()
+	time.Sleep(10 * time.Second)
+	vsched.Settle()
+}
+
+func c04CheckStop(c c04Case, obs *c04Obs) (string, string) {
+	if obs.overlap {
+		return "stop:callbacks-overlap", fmt.Sprintf("a second callback started while one was running (%d delivered)", len(obs.seen[0]))
+	}
+	pool := c04Pool()
+	got := obs.seen[0]
+	if len(got) > len(c.Seq) {
+		return "stop:message-delivered-twice", fmt.Sprintf("%d deliveries of %d messages", len(got), len(c.Seq))
+	}
+	for k, m := range got {
+		if !bytes.Equal(m, pool[c.Seq[k]]) {
+			return "stop:out-of-order-or-altered", fmt.Sprintf("delivery %d is %q, sent %q", k, show(m), show(pool[c.Seq[k]]))
+		}
+	}
+	return "", ""
 }
 
 // c04Body runs one inbound scenario and fills obs.
@@ -483,6 +578,8 @@ func c04ScenarioOf(c c04Case, delay bool, bound int) *schedScenario {
 			c04OutboundPartial(c, &obs)
 		case "outbound-burst":
 			c04OutboundBurst(c, &obs)
+		case "inbound-stop":
+			c04InboundStop(c, &obs)
 		default:
 			c04Inbound(c, &obs)
 		}
@@ -495,6 +592,8 @@ func c04ScenarioOf(c c04Case, delay bool, bound int) *schedScenario {
 			return c04CheckPartial(c, &obs)
 		case "outbound-burst":
 			return c04CheckBurst(c, &obs)
+		case "inbound-stop":
+			return c04CheckStop(c, &obs)
 		}
 		return c04CheckInbound(c, &obs)
 	}
@@ -578,13 +677,13 @@ func runC04(R *vlib.Out) {
 		seqsFull = append(seqsFull, []int{4, 1, 2}, []int{3, 0})
 	}
 	var seqsAll [][]int
-	np := len(c04Pool()) - 1 // the 8 KiB message takes part in dedicated sequences only
-	for a := 0; a < np; a++ {
+	general := []int{0, 1, 2, 3, 4, 6, 7} // (5, the 8 KiB message, takes part in dedicated sequences only)
+	for _, a := range general {
 		seqsAll = append(seqsAll, []int{a})
-		for b := 0; b < np; b++ {
+		for _, b := range general {
 			seqsAll = append(seqsAll, []int{a, b})
 			if thorough || (a+b)%2 == 0 {
-				for d := 0; d < np; d++ {
+				for _, d := range general {
 					if thorough || (a+b+d)%3 == 0 {
 						seqsAll = append(seqsAll, []int{a, b, d})
 					}
@@ -699,6 +798,14 @@ func runC04(R *vlib.Out) {
 			}
 		}
 		scs = append(scs, c04Case{Role: "acc", Buf: 0, Seq: []int{0, 1}, Seq2: []int{2}, Cuts: nil, Mode: "inbound"})
+		// the handler is stopped while a callback runs and messages are queued behind it
+		for _, role := range []string{"ini", "acc"} {
+			for _, buf := range []int{1, 10} {
+				for how := 0; how < 3; how++ {
+					scs = append(scs, c04Case{Role: role, Buf: buf, Seq: []int{0, 1, 2, 3}, Cuts: []int{how}, Mode: "inbound-stop"})
+				}
+			}
+		}
 		for i, c := range scs {
 			if vlib.Expired() {
 				R.Cap("deadline")
